@@ -35,7 +35,7 @@ func init() {
 		Run: run,
 		Floors: func(t string) map[string]int64 {
 			return map[string]int64{"api.struct": 100, "api.fields": 100, "kind.Point": 8, "kind.MultiPoint": 8, "kind.LineString": 8, "kind.MultiLineString": 8, "kind.Polygon": 8, "kind.*Bounds": 8,
-				"records.compared": 3000, "string.last_column": 50, "string.with_edge_blanks": 200, "ring.unclosed": 200, "ring.unclosed_by_a_hair": 100, "file.empty": 3, "column.string": 100, "column.int": 100, "column.float": 100, "string.at_field_width": 20, "schema.crossed_tags_and_names": 20, "decode.alternating_record_types": 30, "decode.some_records_geometry_only": 60, "write.encode_and_encodefields_mixed_on_one_encoder": 30, "box.degenerate": 50, "schema.eleven_byte_names_sharing_ten": 20, "schema.names_longer_than_the_dbf_field": 20, "schema.long_name_cut_inside_a_two_byte_letter": 8, "schema.tag_names_no_column_but_the_field_name_does": 100, "schema.names_the_file_stores_differently": 8, "file.more_than_1000_records": 1}
+				"records.compared": 3000, "decode.geometry_field_of_concrete_type": 30, "string.last_column": 50, "string.with_edge_blanks": 200, "ring.unclosed": 200, "ring.unclosed_by_a_hair": 100, "file.empty": 3, "column.string": 100, "column.int": 100, "column.float": 100, "string.at_field_width": 20, "schema.crossed_tags_and_names": 20, "decode.alternating_record_types": 30, "decode.some_records_geometry_only": 60, "write.encode_and_encodefields_mixed_on_one_encoder": 30, "box.degenerate": 50, "schema.eleven_byte_names_sharing_ten": 20, "schema.names_longer_than_the_dbf_field": 20, "schema.long_name_cut_inside_a_two_byte_letter": 8, "schema.tag_names_no_column_but_the_field_name_does": 100, "schema.names_the_file_stores_differently": 8, "file.more_than_1000_records": 1}
 		},
 	})
 }
@@ -578,9 +578,22 @@ func run(c *core.Ctx, idx int) {
 			// two record types for the same file: the columns in a different order, the geometry
 			// field at a different position, and (second type) one field no attribute matches;
 			// 35% of the files are read alternating between the two, row by row, through one Decoder
+			// 40% of the files are read into records whose geometry field has the concrete type the
+			// records were written from (a box comes back as a polygon), not the interface type
+			concrete := r.Chance(0.4)
+			if concrete {
+				c.Count("decode.geometry_field_of_concrete_type")
+				c.Count("decode.concrete_field." + kind)
+			}
 			mk := func(order []int, geomAt int, extra bool) reflect.Type {
 				var fs []reflect.StructField
 				gf := reflect.StructField{Name: "Geom", Type: reflect.TypeOf((*geom.Geom)(nil)).Elem()}
+				if concrete {
+					gf.Type = geomType(kind)
+					if kind == "*Bounds" {
+						gf.Type = reflect.TypeOf(geom.Polygon{})
+					}
+				}
 				for pos, k := range order {
 					if pos == geomAt {
 						fs = append(fs, gf)
@@ -641,7 +654,12 @@ func run(c *core.Ctx, idx int) {
 				if !d.DecodeRow(pv.Interface()) {
 					break
 				}
-				if gv := pv.Elem().FieldByName("Geom"); !gv.IsNil() {
+				if gv := pv.Elem().FieldByName("Geom"); gv.Kind() != reflect.Interface {
+					g = gv.Interface().(geom.Geom)
+					if ls, ok := g.(geom.LineString); ok {
+						g = geom.MultiLineString{ls} // compared with the image of the written line string
+					}
+				} else if !gv.IsNil() {
 					g = gv.Interface().(geom.Geom)
 				}
 				for k, col := range cols {
